@@ -4,6 +4,7 @@ CHECK = {
         suite("file", "c15", 400, 12000, stdin=True, args=["-suite", "file"]),
         suite("env", "c15", 1500, 60000, stdin=True, args=["-suite", "env"]),
         suite("src", "c15", 600, 8000, stdin=True, args=["-suite", "src"]),
+        suite("val", "c15", 800, 20000, stdin=True, args=["-suite", "val"]),
     ],
     "gen": [{"pkg": "extract_c15", "out": "lean/ClusterVerif/Gen/C15.lean"}],
     "lean_sources": ["ClusterVerif/Model/C15.lean", "ClusterVerif/Spec/C15.lean", "ClusterVerif/Gen/C15.lean"],
@@ -18,9 +19,15 @@ CHECK = {
             "(plain / invalid / garbage / missing file, {source:url} via LoadJSON, LoadJSONFromFile and LoadJSONFromHTTPSource over 13 remote "
             "behaviours: valid, invalid, garbage, empty, own source, own source down, self, 404, 500, redirect, down; Default), every operation "
             "followed by 8 second operations (thorough: all pairs), some triples, then save and reload by a fresh Manager), "
+            "val: for every Validate() conjunct of every section (guards, cross-field comparisons, inlined helpers) the rows it reads set to values "
+            "on both sides of every boundary (all combinations for up to 3 rows, keys removed, null/empty collections) — real LoadJSON, real Validate() on "
+            "the resulting object and the Config fields by reflection against the conjunct model; file also: a Manager file with an unknown component, a "
+            "null unknown component, an unknown top-level key, an undefined registered component and duplicate keys (case kind mgr), "
             "then n seeded random cases (random field, random value of its type, 1/12 byte-mangled JSON); non-trivial = the loader "
             "accepted or refused a set value (unset/null accepted cases are trivial); distinct by case line",
     "trusted_base": ["go/ast pattern matcher harness/common/c15_schema.go (fail-closed: unmatched references become kind custom)",
+                     "statement-shape recognisers harness/common/c15_codec.go (regular expressions over the normalised source of whole statement windows; no match = custom) and c15_validate.go (expression language of Validate conjuncts; no match = opaque)",
+                     "library codecs: NewMultiaddr/String, peer.Decode/Encode, hex and base64 decode/encode, crypto.UnmarshalPrivateKey/Bytes round-trip what they accept (like time.ParseDuration/String); integer casts uint <-> goleveldb.Compression/Strict preserve the value",
                      "reflection on the exported Config struct field named by the translator for eff/eff2",
                      "in-process net/http/httptest server and a closed loopback port standing for remote sources",
                      "time.ParseDuration(d.String()) = d and d.String() != \"\" (Go time package)",
@@ -28,7 +35,8 @@ CHECK = {
                      "value classification of the generator (vc=zero|wf|mal|unset) and the frozen secret-name list of the Spec"],
     "assumptions": ["an empty environment variable means 'not set' (not counted as a setting)",
                     "identity.json is never displayed (config.Identity has no ToDisplayJSON), so its private_key needs no hidden tag",
-                    "rows on the Spec allow-list (custom load/save: multiaddresses, peer lists, keys, TLS files, enum) are covered by the value sweeps only"],
+                    "an opaque Validate conjunct that reads no Config field a JSON key is loaded into (cluster isRPCPolicyValid(cfg.RPCPolicy)) has the same value for every file; the default case of every run observes that it does not fire",
+                    "DisplayJSON masks top-level struct fields only: theorem table_no_nested_hidden keeps every hidden tag at the top level"],
 }
 META = {
     "text": "Kernel-checked for all values of any Go value type: for every load/save kind pair found in the sources (direct, SetIfNotDefault, "
@@ -46,7 +54,14 @@ META = {
             "state saves exactly {source:url} and reloads to the same configuration), plain_roundtrip, accepted_iff, nested/failed fetch refused, "
             "source_cleared_only_by_plain, accepted_load_forgets_history and reuse_full (after any operation sequence on any Manager an accepted "
             "document is exactly what is saved and reloads to the same state; false before /repo fbf34ff, finding F39); "
-            "the real Manager is driven through the same operation sequences and must agree with the model observation for observation.",
+            "the real Manager is driven through the same operation sequences and must agree with the model observation for observation. "
+            "Round 7: every parse/print setting (multiaddress, multiaddress lists, peer lists incl. crdt '*', hex secret, base64 keys, peer IDs, the disk enum, the TLS path pair, "
+            "cors_max_age) has a load/save kind of its own recognised from the statement shape, with theorems for all values of any codec that round-trips "
+            "(round trip, settable, refusal only for unparsable text, accepted => own Validate conjunct; the enum codec's law is proved from the regenerated switch and String() tables); "
+            "the allow-list is down to the two legacy keys. Validate() of every section is read as a conjunction of (guard, condition) pairs over a small expression language "
+            "(cross-field comparisons, len, String(), nil, && || !, inlined helpers): defaults validate (decide), LoadJSON accepts => no conjunct fires, and the evaluator predicts the real "
+            "Validate() and LoadJSON on both sides of every boundary. A whole Manager file is modelled as maps group -> name -> entry: manager_save_load_id, unknown_sections_policy "
+            "(unknown components kept verbatim, undefined registered components written with defaults, null registered component refused), display_hides_all_hidden, dup_last_wins.",
     "note": "Trusted: Lean kernel (+propext, Classical.choice, Quot.sound), the go/ast translator's pattern matcher (fail-closed), the harness "
             "(reflection on Config fields, value classification), Go's time and encoding/json. Known findings on the unchanged tree: K11 "
             "(booleans cannot be set to false under SetIfNotDefault/mergo), K12 (explicit empty string/list replaced by the default). Found by this "
